@@ -20,8 +20,8 @@ RLIMIT = re.compile(r"resource limit|rlimit|timed out|timeout", re.I)
 IGNORE = re.compile(r"aborting due to|^\d+ warnings? emitted|verification results", re.I)
 
 
-def run_verus(path, rlimit=None, seed=None, threads=None, timeout=900, extra=None):
-    cmd = ["verus", path, "--output-json", "--time", "--multiple-errors", "50", "--error-format=json"]
+def run_verus(path, rlimit=None, seed=None, threads=None, timeout=900, extra=None, multiple_errors=50):
+    cmd = ["verus", path, "--output-json", "--time", "--multiple-errors", str(multiple_errors), "--error-format=json"]
     if rlimit:
         cmd += ["--rlimit", str(rlimit)]
     if threads:
